@@ -177,6 +177,9 @@ def variant(text, rng, kind):
         return block_comments(text, rng)
     if kind == "preproc":
         return preproc_lines(text, rng)
+    if kind == "trailing":
+        # nothing but blanks behind some line ends (what only whitespace_001 and the post-phase-1 normalisation see)
+        return relayout(text, rng, ws=0.0, trailing=0.3)
     raise ValueError(kind)
 
 
@@ -485,6 +488,10 @@ def named_config(name, tables, rng, text=None):
         return None, []
     if name == "exceptions":
         return exceptions_config(tables, rng, text)
+    if name in ("ws001_off", "ws001_warning"):
+        # trailing blanks are nobody's business in phase 1: the engine's own clean up after phase 1 is then the
+        # only thing that touches them
+        return None, [{"rule": {"whitespace_001": {"disable": True} if name == "ws001_off" else {"severity": "Warning"}}}]
     if name == "jcl":
         return "jcl", []
     if name == "indent_only":
